@@ -149,12 +149,12 @@ def run(ctx: Ctx):
     quick = ctx.quick()
     rng = ctx.rng("diagrams")
     s = Stream(ctx, "diagrams rendered from random component relations")
-    cases = [gen_diagram(rng) for _ in range(ctx.size(10000, 60000))]
+    cases = [gen_diagram(rng) for _ in range(ctx.size(10000, 400000))]
     judge(ctx, s, cases)
     s.finish()
     s = Stream(ctx, "files without start/end tags")
     bad = []
-    for _ in range(ctx.size(300, 1000)):
+    for _ in range(ctx.size(300, 3000)):
         d = gen_diagram(rng)
         t = d["text"]
         k = rng.randrange(3)
